@@ -11,7 +11,8 @@ T = {
  "C02B": ("Hayson grid with non-default ver and present-but-empty meta: wrong map length hint gives invalid JSON text", ["C02"], ["C02"], "universe had only ver 3.0 grids; added the ver-variants shard (ver x 4 meta variants x 3 shapes x 5 nestings) and made grid ver a compared component in C01/C02"),
  "C03A": ("Zinc timestamp offset copied unchecked: non-ASCII byte in the offset slices inside a character and panics", ["C03"], ["C03"], None),
  "C03B": ("Zinc lexer treats form feed as a blank that the scanner does not consume: endless loop", ["C03"], ["C03"], None),
- "C04A": None, "C04B": None,
+ "C04A": ("nested grid start demands a newline straight after '<<' (foreign spelling '<<ver:' rejected)", ["C04", "C11"], ["C04"], None),
+ "C04B": ("list elements written with to_zinc: a grid element of a list loses its << >>", ["C04", "C01"], ["C04", "C01"], None),
  "C05A": ("Hayson non-finite number translated in the member loop only once _kind has been seen: {val:INF,_kind:number} rejected", ["C05"], ["C05"], None),
  "C05B": ("Hayson grid with non-default ver and absent meta loses its ver", ["C05", "C02"], ["C05", "C02"], "as C02B (ver variants); C05 direction 1 now demands meta.ver whenever the grid ver is not the default"),
  "C06A": ("is_utc() true for every zero offset: London in winter written as bare Z and read back as UTC", ["C06", "C01", "C02"], ["C06", "C01", "C02"], None),
